@@ -324,7 +324,7 @@ def multiprocessing_run(
             with open(mp_log_path, 'a') as mp_file:
                 mp_file.write(success_text)
 
-        return MultiprocessingOutput(case_number=run_num, input_index=run_indicies, result=result)
+        return MultiprocessingOutput(case_number=this_run_num, input_index=run_indicies, result=result)
 
     # Perform multiprocessing study
     study_error = None
